@@ -128,7 +128,7 @@ Definition discover_root (tree : node) (root : list str) : list spec :=
 (** error codes *)
 Definition E_DUP_NAME : N := 1.      (* duplicate repository name *)
 Definition E_DUP_SOURCE : N := 2.    (* discovered by more than one root *)
-Definition E_ROOT : N := 3.          (* root missing / not a directory / duplicate root *)
+Definition E_ROOT : N := 3.          (* root missing / not a directory / duplicate root / a repository under it would get the empty name *)
 Definition E_INVENTORY : N := 4.     (* readInventory: unreadable shard or shard with != 1 repositories *)
 Definition E_INDEX : N := 5.         (* at least one IndexGitRepo call failed (the run continues) *)
 Definition E_NOT_FOUND : N := 6.     (* remove: selector matches nothing *)
@@ -156,10 +156,18 @@ Fixpoint add_all (acc : list spec) (l : list spec) : outcome (list spec) :=
       else add_all (acc ++ [s]) r
   end.
 
+(** discoverRoot's add(): a repository whose name would be empty — a root directory called ".git" that is a bare
+    repository ("<x>/.git" given as a root) — makes the walk of that root fail ("cannot derive a repository name",
+    repair `fix: zoekt-local-sync: reject a repository whose name would be empty`).  Before the repair it was
+    returned with the name "": the preview then announced `Would index ""` and succeeded while -f always failed in
+    index.NewBuilder ("must set Name") — see props/C33/NOTES.md. *)
+Definition nameless (l : list spec) : bool := existsb (fun s => match sp_name s with [] => true | _ => false end) l.
+
 Fixpoint discover_roots (tree : node) (acc : list spec) (roots : list (list str)) : outcome (list spec) :=
   match roots with
   | [] => Ok acc
-  | r :: rest => do acc' <- add_all acc (discover_root tree r); discover_roots tree acc' rest
+  | r :: rest => if nameless (discover_root tree r) then Err E_ROOT
+                 else do acc' <- add_all acc (discover_root tree r); discover_roots tree acc' rest
   end.
 
 Fixpoint ins_by_name (x : spec) (l : list spec) : list spec :=
